@@ -32,6 +32,7 @@ PROPS_FILE = "theories/Props/C20.v"
 EXTRACT = ("theories/Extract/XC20.v", "c20", ["entry_run", "entry_hi", "entry_sig", "entry_check"])
 PYX = {}
 CASE_TIMEOUT = 240
+FORK_TIMEOUT = 20        # per child; the whole case must stay below the core's 60 s stall limit
 RULE = ("one case = one random call history of length 2-12 (repetitions, interleavings, the same function on two "
         "different input sets) over the drivable public functions of the eleven modules (catalog of 211 calls on "
         "132 functions), on input arrays shared by all calls of the history, each array in a dtype from "
@@ -251,9 +252,18 @@ def _catalog():
     for nm in "grey_erosion grey_dilation opening closing white_tophat black_tophat".split():
         add(nm + "+fp", "cpmorphology." + nm, "If", lambda a, fp, f=getattr(M, nm): f(a, footprint=fp))
         add(nm + "+fp+mask", "cpmorphology." + nm, "IMf", lambda a, m, fp, f=getattr(M, nm): f(a, mask=m, footprint=fp))
-    add("grey_reconstruction+fp", "cpmorphology.grey_reconstruction", "If",
+    add("grey_reconstruction+fp", "cpmorphology.grey_reconstruction", "IG",
         lambda a, fp: M.grey_reconstruction(a // 2 if a.dtype.kind in "iub" else a * 0.5, a, footprint=fp))
-    add("grey_reconstruction+fp+off", "cpmorphology.grey_reconstruction", "Iso",
+    add("grey_reconstruction+fp+off", "cpmorphology.grey_reconstruction", "IHo",
+        lambda a, fp, o: M.grey_reconstruction(a // 2 if a.dtype.kind in "iub" else a * 0.5, a, footprint=fp, offset=o))
+    for nm in "grey_erosion grey_dilation opening".split():
+        add(nm + "+fpG", "cpmorphology." + nm, "IG", lambda a, fp, f=getattr(M, nm): f(a, footprint=fp))
+        add(nm + "+fpH", "cpmorphology." + nm, "IH", lambda a, fp, f=getattr(M, nm): f(a, footprint=fp))
+    add("is_local_maximum+fpG", "cpmorphology.is_local_maximum", "ILG", M.is_local_maximum)
+    # since /repo 6f73ae9 grey_reconstruction converts its footprint to a boolean copy: every dtype again
+    add("grey_reconstruction+fp-anydtype", "cpmorphology.grey_reconstruction", "If",
+        lambda a, fp: M.grey_reconstruction(a // 2 if a.dtype.kind in "iub" else a * 0.5, a, footprint=fp))
+    add("grey_reconstruction+st-anydtype+off", "cpmorphology.grey_reconstruction", "Iso",
         lambda a, fp, o: M.grey_reconstruction(a // 2 if a.dtype.kind in "iub" else a * 0.5, a, footprint=fp, offset=o))
     add("grey_reconstruction-2img", "cpmorphology.grey_reconstruction", "I", lambda a: M.grey_reconstruction(a, a))
     add("cpmaximum+st", "cpmorphology.cpmaximum", "Is", lambda a, s: M.cpmaximum(a, s))
@@ -299,7 +309,10 @@ def _catalog():
     add("all_connected_components+arrays", "cpmorphology.all_connected_components", "ab", M.all_connected_components)
     add("pairwise_permutations+arrays", "cpmorphology.pairwise_permutations", "ab", M.pairwise_permutations)
     add("single_shortest_paths", "cpmorphology.single_shortest_paths", "W", lambda w: M.single_shortest_paths(0, w))
-    # angular_distribution is left out: it swaps the axes of its meshgrid and rejects every non-square image
+    # (angular_distribution swaps the axes of its meshgrid and rejects every non-square image: the medium
+    # input set is square)
+    add("angular_distribution", "cpmorphology.angular_distribution", "L", lambda l: M.angular_distribution(l, 8))
+    add("angular_distribution+w", "cpmorphology.angular_distribution", "LI", lambda l, a: M.angular_distribution(l, 8, a))
     add("fixup_scipy_ndimage_result", "cpmorphology.fixup_scipy_ndimage_result", "D", M.fixup_scipy_ndimage_result)
     add("draw_line-copy", "cpmorphology.draw_line", "Lpq",
         lambda l, p, q: M.draw_line(l.copy(), (int(p[0]) % 8, int(p[1]) % 8), (int(q[0]) % 8, int(q[1]) % 8), 5))
@@ -592,6 +605,11 @@ _ANY = ["bool", "uint8", "int32", "int64", "float32", "float64"]
 SMALL = {
     "f": (lambda: np.array([[0, 1, 0], [1, 1, 1], [0, 1, 0]]), ["bool", "bool"] + _ANY),        # footprint
     "s": (lambda: np.ones((3, 3), int), ["bool", "bool"] + _ANY),                               # structure
+    # boolean-only footprints (already the target dtype of every conversion), shared by grey_reconstruction and
+    # other footprint-taking calls.  (Before /repo 6f73ae9 grey_reconstruction indexed its offset grid with an
+    # integer footprint - fancy indexing instead of masking - and ran the compiled loop on garbage strides.)
+    "G": (lambda: np.array([[1, 1, 1], [1, 1, 1], [0, 1, 0]]), ["bool"]),
+    "H": (lambda: np.ones((3, 3), int), ["bool"]),
     "S": (lambda: np.array([[1, 1, 1], [0, 0, 0], [0, 0, 0]]), ["bool", "bool", "uint8", "int64"]),   # 2nd strel
     "T": (lambda: np.array([[0, 0, 0], [0, 1, 0], [1, 1, 1]]), ["bool", "bool", "uint8", "int64"]),   # 1st strel
     "x": (lambda: np.array([1, 2, 3]), ["int32"] + _INTS),                                      # index list
@@ -1005,6 +1023,12 @@ def _fork(fn, timeout=60):
         code = 0
         try:
             os.close(r)
+            try:                                    # never keep the worker's stderr pipe open in a child
+                dn = os.open(os.devnull, os.O_WRONLY)
+                os.dup2(dn, 2)
+                os.dup2(dn, 1)
+            except OSError:
+                pass
             signal.alarm(0)
             signal.signal(signal.SIGALRM, signal.SIG_DFL)
             try:
@@ -1100,12 +1124,12 @@ def impl(case):
     for k in twin:
         jobs.append(lambda k=k: _run_history(case, only=k, scramble=case["scramble"] + 104729 * (k + 1), light=True,
                                              canon=True, ser=True)[0])
-    res = _parallel(jobs, width=int(os.environ.get("C20_WIDTH", "4")), timeout=CASE_TIMEOUT // 2)
+    res = _parallel(jobs, width=int(os.environ.get("C20_WIDTH", "4")), timeout=FORK_TIMEOUT)
     # a crashed child is run once more: only a crash that repeats is charged to the library
     out_flaky = 0
     for i, r in enumerate(res):
         if isinstance(r, dict) and "crash" in r:
-            r2 = _parallel([jobs[i]], width=1, timeout=CASE_TIMEOUT // 2)[0]
+            r2 = _parallel([jobs[i]], width=1, timeout=FORK_TIMEOUT)[0]
             if not (isinstance(r2, dict) and "crash" in r2):
                 res[i] = r2
                 out_flaky += 1
@@ -1140,7 +1164,7 @@ def impl(case):
                 if used & ro_keys:
                     todo.append(k)
         pr = _parallel([lambda k=k: _run_history(case, only=k, scramble=1, writable=True, light=True)[0] for k in todo],
-                       width=4, timeout=CASE_TIMEOUT // 4)
+                       width=4, timeout=FORK_TIMEOUT)
         for k, p in zip(todo, pr):
             out["probes"][str(k)] = p
     return out
@@ -1162,7 +1186,7 @@ def _mk_case(ctx, rng, cat, calls=None, length=None, shapes=None):
     # three input sets of DIFFERENT sizes (large, medium, tiny) so that a history runs the same function on
     # inputs of different sizes in both orders
     shapes = shapes or [[int(rng.randint(11, 18)), int(rng.randint(11, 18))],
-                        [int(rng.randint(6, 11)), int(rng.randint(6, 11))],
+                        [int(rng.randint(6, 11))] * 2,           # square (angular_distribution accepts nothing else)
                         [int(rng.randint(3, 6)), int(rng.randint(3, 6))]]
     dt, lay = {}, {}
     for si in range(len(shapes)):
@@ -1267,11 +1291,11 @@ def generate(ctx):
     sk = _STATEFUL_KEYS(cat)
     for a in sk:
         for b in sk:
-            if ctx.quick() and rng.rand() > 0.08:
+            if rng.rand() > ctx.n(0.05, 0.4):
                 continue
             cases.append(_mk_case(ctx, rng, cat, calls=[[a, 0], [b, 1], [a, 1], [b, 0], [a, 2], [b, 2], [a, 0]]))
             ctx.count("stateful_pairs")
-    for _ in range(ctx.n(200, 2400)):
+    for _ in range(ctx.n(200, 2000)):
         cases.append(_mk_case(ctx, rng, cat))
         ctx.count("random")
     for c in cases:
